@@ -2,8 +2,9 @@
 
 This file is organised in sections, one per clause of the property; each
 section is a function `section_xxx(ctx, tier, r)` appended to SECTIONS, and
-the Lean modules it relies on are listed in PROP_MODULES.  At present only the
-packet-number clause is covered:
+the Lean modules it relies on are listed in PROP_MODULES.  The packet-protection
+and altered-packet clauses live in checks/c02b.py (hooked in below); this file
+itself covers the packet-number clause:
 
   "... and a truncated packet number is always expanded to the candidate
    closest to the next expected number."
@@ -180,11 +181,17 @@ def section_packet_number(ctx, tier, r):
 
 SECTIONS.append(section_packet_number)
 
+# packet protection / altered packets (checks/c02b.py)
+from checks import c02b   # noqa: E402
+PROP_MODULES.append("AQ.Props.C02b")
+SECTIONS.append(lambda ctx, tier, r: c02b.run(ctx, tier))
+
 
 # ----------------------------------------------------------------- the check
 def main(tier):
     ctx = core.Ctx("C02", tier)
     tree.activate()
+    c02b.regenerate_tables(ctx)        # TRANSLATOR: crypto.py / packet.py -> AQ.Gen.CryptoTables
     ctx.prove(PROP_MODULES, [])
     ctx.cov["trusted_base"] = [
         "Lean 4.33.0 kernel (+ leanchecker in thorough tier)",
@@ -193,11 +200,11 @@ def main(tier):
         "to aioquic.quic.packet.decode_packet_number; `expected & ~(window-1)` is modelled as "
         "`expected - expected % window` (non-negative ints)",
         "harness/impl_codec.py canonicalisation; CPython int semantics",
-    ]
+    ] + c02b.TRUSTED[2:]
     ctx.assumptions = [
         "packet-number clause only: truncated, num_bits, expected are non-negative ints (as produced by "
-        "the receive path); the packet-protection clauses of C02 are not covered by this file yet",
-    ]
+        "the receive path)",
+    ] + c02b.ASSUMPTIONS
     r = rng.make("c02")
     for section in SECTIONS:
         section(ctx, tier, r)
@@ -206,7 +213,8 @@ def main(tier):
         "every width 1..7 (quick, k=4) / 1..9 (thorough, k=6); for widths 8/16/24/32 the cross product of "
         "truncated and expected offsets at 0, half-window±2, window-1 around window multiples near 0 and near "
         "2^62; random in-window round trips and random values incl. truncated >= window.  Non-trivial = a case "
-        "in which the result is not the raw candidate (window added/subtracted); distinct by op-sequence hash."
+        "in which the result is not the raw candidate (window added/subtracted); distinct by op-sequence hash.  "
+        + c02b.RULE
     )
     ctx.cov["exhaustive"] = True
     return ctx.finish()
